@@ -651,6 +651,15 @@ def f1(run, tu):
     pfn = mp.find('Parser._get_struct_union_enum_type')
     apps = [u(c) for c in ast.walk(pfn) if isinstance(c, ast.Call) and isinstance(c.func, ast.Attribute) and c.func.attr == 'append' and u(c.func.value) in ('fldnames', 'fldtypes', 'fldbitsize', 'fldquals')]
     run.ob('F1/parser-appends-fields-in-order', 'Parser._get_struct_union_enum_type', '; '.join(apps)[:100], {a.split('.')[0] for a in apps} >= {'fldnames', 'fldtypes', 'fldbitsize'}, mp.where(pfn))
+    # the packing option in force where the *fields* are given is the one recorded (a struct may have been mentioned,
+    # and so created, by an earlier cdef() with other options)
+    top = [st for st in pfn.body if isinstance(st, ast.Assign)]
+    flds = [i for i, st in enumerate(pfn.body) if isinstance(st, ast.Assign) and u(st.targets[0]) == 'tp.fldtypes']
+    pk = [i for i, st in enumerate(pfn.body) if isinstance(st, ast.Assign) and u(st.targets[0]) == 'tp.packed']
+    allpk = [n for n in ast.walk(pfn) if isinstance(n, ast.Assign) and u(n.targets[0]) == 'tp.packed']
+    okp = len(flds) == 1 and len(pk) == 1 and len(allpk) == 1 and u(pfn.body[pk[0]].value).replace(' ', '') == "self._options.get('packed')"
+    run.ob('F1/packing-option-recorded-where-the-fields-are-declared', 'Parser._get_struct_union_enum_type', "tp.packed = self._options.get('packed') next to tp.fldtypes = ...", okp, mp.where(pfn),
+           'tp.packed assigned at %s, fields at statement %s of the function body' % ([mp.where(n) for n in allpk], flds))
     nb = [n for n in ast.walk(pfn) if isinstance(n, ast.Assign) and u(n.targets[0]) == 'bitsize']
     vals = sorted(u(n.value) for n in nb)
     run.ob('F1/no-bit-field-encoded-as-minus-one', 'Parser._get_struct_union_enum_type', 'bitsize = %s' % ' | '.join(vals), vals == ['-1', 'self._parse_constant(decl.bitsize)'], mp.where(pfn))
@@ -676,5 +685,5 @@ def check(run):
     run.assume('decided: placement, padding, total size and alignment as computed by the backend for the declarations of the property; '
                'not decided: that every ctype reports the alignment the compiler uses for it (get_alignment of primitives is C06) nor '
                'the accessor arithmetic on the placed bit-fields (C02)')
-    for rule, k in (('T1', 150), ('T2', 20), ('W1', 6), ('F1', 12)):
+    for rule, k in (('T1', 150), ('T2', 20), ('W1', 6), ('F1', 13)):
         run.min_instances(rule, k)
